@@ -332,14 +332,11 @@ func ruleR07_2(c *Check) {
 	r.Check(okForce, nt, "read-only DBs only create read-only transactions", nil, "newTransaction no longer forces update=false under ReadOnly")
 	md := w.F("badger.Txn.modify")
 	okRej := false
-	md.walk(func(n ast.Node) bool {
-		if cc, ok := n.(*ast.CaseClause); ok && len(cc.List) == 1 {
-			if u, ok := unparen(cc.List[0]).(*ast.UnaryExpr); ok && u.Op == token.NOT && w.fieldOf(u.X) == w.Field("badger.Txn.update") && w.terminates(cc.Body) {
-				okRej = true
-			}
+	for _, m := range modifyRejections(w) {
+		if m.class == "update" {
+			okRej = true
 		}
-		return true
-	})
+	}
 	r.Check(okRej, md, "writes are rejected on read-only transactions", nil, "Txn.modify no longer rejects !txn.update first")
 	n := confinement(c, r, mode, roots, func(p primitive) bool { return p.mutate }, exc)
 	r.Exists(n >= 10, nil, "mutating primitive sites examined", nil, "too few primitive sites found: the primitive table no longer matches the tree")
